@@ -1562,6 +1562,15 @@ func genH(e *emitter, repeat int) {
 			}
 		}
 	}
+	// the largest timeout there is (time.Duration(math.MaxInt64), "wait for ever") and a 100-year one: the timer arm is simply never ready
+	for _, ns := range []int64{int64(^uint64(0) >> 1), int64(^uint64(0)>>1) - 1, int64(100 * 365 * 24 * time.Hour)} {
+		for _, sc := range []Case{{Chan: "empty", ChanAt: -1, Ctx: "none", CtxAt: -1}, {Chan: "waiting", ChanAt: -1, Ctx: "live", CtxAt: -1},
+			{Chan: "full", ChanAt: -1, Ctx: "cancel", CtxAt: short}, {Chan: "nobody", ChanAt: -1, Ctx: "deadline", CtxAt: short},
+			{Chan: "drained", ChanAt: short, Ctx: "none", CtxAt: -1}, {Chan: "arrives", ChanAt: short, Ctx: "cancel", CtxAt: long}, {Chan: "full", ChanAt: -1, Ctx: "done", CtxAt: 0}} {
+			sc.Kind, sc.Gen, sc.TimeoutNs, sc.Slack = "h", "extreme-timeout", ns, 1000
+			cases = append(cases, sc)
+		}
+	}
 	// the constructor refuses what Process could not honour: no channel, a timeout of 0 or less
 	if _, err := channel.NewChannelSink(nil, time.Second); err == nil {
 		fmt.Fprintln(os.Stderr, "sinksh: NewChannelSink accepted a nil channel")
